@@ -921,7 +921,9 @@ def run_threshold(case, seed, R):
 # ---------------------------------------------------------------------------------------------
 # radiometric scale (the laws are homogeneous) and PSF dtype alphabets
 
-SCALES_QUICK = (1e-100, 1e-30, 1e-20, 1e-15, 1e-8, 1e-3, 1e3, 1e8, 1e12, 1e15, 1e30, 1e100)
+SCALES_QUICK = (1e-100, 1e-30, 1e-20, 1e-15, 1e-8, 1e-3, 1e3, 1e8, 1e12, 1e15, 1e30, 1e100,
+                # next to the special value 1 (inside / outside the rtol=1e-5, atol=1e-8 of numpy.isclose and the 1e-9 of math.isclose)
+                1 - 4e-6, 1 + 7e-6, 1 - 3e-9, 1 + 6e-10, 0.9999, 1.0002)
 SCALES_THOROUGH = (1e-300, 1e-200) + SCALES_QUICK + (1e200, 1e300)
 SCALES_F32 = (1e-30, 1e-15, 1e-8, 1e8, 1e15, 1e30)       # inside the range of float32
 CONV_SCALES = (1e-100, 1e-20, 1e-15, 1e-8, 1.0, 1e8, 1e12, 1e15, 1e100)
